@@ -21,14 +21,11 @@ def fact : Nat → Nat
   | 0 => 1
   | n+1 => (n+1) * fact n
 
-/-- Pascal's rule (same recursion as Mathlib's `Nat.choose`; identified with it in Lemmas/LowPass) -/
-def choose : Nat → Nat → Nat
-  | _, 0 => 1
-  | 0, _+1 => 0
-  | n+1, k+1 => choose n k + choose n (k+1)
+/-- binomial coefficient n! / (k! (n−k)!) (identified with Mathlib's `Nat.choose` in Lemmas/LowPassSums) -/
+def choose (n k : Nat) : Nat := if k ≤ n then fact n / (fact k * fact (n - k)) else 0
 
 /-- Python `x ** k` for an integer `k` (negative exponents are reciprocals; `0 ** -1` is a float error in
-    Python and `0` here — every use multiplies such a factor by `0`, see `C18_case1b_closed`) -/
+    Python and `0` here — every use multiplies such a factor by `0`, see `C18_nocall_closed`) -/
 def zpowR (x : Rat) (k : Int) : Rat :=
   if k ≥ 0 then x ^ k.toNat else 1 / x ^ (-k).toNat
 
